@@ -145,9 +145,9 @@ pub fn spec(property: &str, tier: &str) -> Option<CheckSpec> {
 				"schedsim",
 				"exploration",
 				if quick { 16 } else { 64 },
-				"case = one generated two-to-three-branch world and two (thorough: six) thread plans; run = one seeded schedule of a fixed multiset of operations over 4-8 simulated threads: 2-3 peers submitting the bodies of competing forks (headers pre-delivered, duplicates, locally swapped orders), 1-2 readers (head, get_block(head), header by height, get_unspent), optionally a template builder (set_txhashset_roots), a segment server (segmenter + kernel/output segment) and a compactor (compact + validate). Threads are real OS threads released one at a time by a seeded baton scheduler at every grin_util lock acquire/release, at the LMDB writer token, at the labelled durable steps and at sleeps. Oracle: no deadlock (all live threads blocked), no panic, every observed head names a stored block of the same height/difficulty, head difficulty never decreases per reader, no read returns an error; at join the head is the unique most-work block (what every sequential order of the same submissions yields), validate(false) passes and the unspent view equals the replayed ledger. distinct = distinct context-switch sequences (hash of (thread, label) at every switch); the first run of every case is replayed from its recorded choice list and must reproduce the identical trace",
+				"case = one generated two-to-three-branch world (every fourth case an 87-92 block chain with a fork at the tip whose first 81+ blocks are in place before the threads start, so that the compactor thread really compacts while blocks arrive) and two (thorough: six) thread plans; run = one seeded schedule of a fixed multiset of operations over 4-8 simulated threads: 2-3 peers submitting the bodies of competing forks (headers pre-delivered, duplicates, locally swapped orders), 1-2 readers (head, get_block(head), header by height, get_unspent), optionally a template builder (set_txhashset_roots), a segment server (segmenter + kernel/output segment) and a compactor (compact + validate). Threads are real OS threads released one at a time by a seeded baton scheduler at every grin_util lock acquire/release, at the LMDB writer token, at the labelled durable steps and at sleeps. Oracle: no deadlock (all live threads blocked), no panic, every observed head names a stored block of the same height/difficulty, head difficulty never decreases per reader, no read returns an error; at join the head is the unique most-work block (what every sequential order of the same submissions yields), validate(false) passes and the unspent view equals the replayed ledger. distinct = distinct context-switch sequences (hash of (thread, label) at every switch); the first run of every case is replayed from its recorded choice list and must reproduce the identical trace",
 				vec!["scheduling points are lock operations, durable steps and sleeps: data races inside a critical section are out of reach", "all headers are delivered before the threads start so that every submission order is a legal history"],
-				vec!["context_switches", "reader_observations", "replay_identical"],
+				vec!["context_switches", "reader_observations", "replay_identical", "compaction_moved_tail_under_concurrency"],
 			);
 			sp.real_components = vec![
 				"grin_chain::Chain (process_block, readers, set_txhashset_roots, segmenter, compact, validate), pipe, TxHashSet, OrphanBlockPool".into(),
